@@ -111,6 +111,38 @@ func (c *ctx) errorFrames() {
 	c.count("error-identifier-frames")
 }
 
+// newMessageCase: a frame constructed by the library for this identifier and payload - the bytes, the verdict of
+// validation, what the split function delivers for it under fragmentation, and the accessors
+func (c *ctx) newMessageCase(mid byte, p []byte) {
+	var f xsens.Message
+	fr := "OP"
+	v := 2
+	var toks [][]byte
+	acc := "ANone"
+	if pan, _ := protect(func() { f = xsens.NewMessage(xsens.MessageIdentifier(mid), p) }); !pan {
+		fr = "(OB " + nlist(f) + ")"
+		v, _, acc = observeValidate(f)
+		if v != 0 {
+			if pan2, _ := protect(func() { acc = accObs(f) }); pan2 {
+				acc = "APanic"
+			}
+		}
+		protect(func() { toks = scanTokensFragmented(c, f) })
+	}
+	c.emit("newmsg", tup(us(uint64(mid)), nlist(p), fr, us(uint64(v)), nlists(toks), acc))
+}
+
+// framingBoundary: the frames this property's streams are built from come from the library's own constructor; its
+// behaviour at the boundaries of the two length formats is part of every such property's input
+func (c *ctx) framingBoundary(mids ...byte) {
+	for _, n := range []int{0, 1, 250, 251, 252, 253, 254, 255, 256, 257, 258, 2046, 2047, 2048} {
+		for _, mid := range mids {
+			c.newMessageCase(mid, c.payload(n))
+		}
+	}
+	c.count("framing-boundary-frames")
+}
+
 // lengths biased to the protocol's boundaries
 func (c *ctx) payloadLen() int {
 	switch c.rng.Intn(10) {
@@ -373,24 +405,7 @@ func init() {
 	}
 
 	props["C06"] = func(c *ctx) {
-		emit := func(mid byte, p []byte) {
-			var f xsens.Message
-			fr := "OP"
-			v := 2
-			var toks [][]byte
-			acc := "ANone"
-			if pan, _ := protect(func() { f = xsens.NewMessage(xsens.MessageIdentifier(mid), p) }); !pan {
-				fr = "(OB " + nlist(f) + ")"
-				v, _, acc = observeValidate(f)
-				if v != 0 {
-					if pan2, _ := protect(func() { acc = accObs(f) }); pan2 {
-						acc = "APanic"
-					}
-				}
-				protect(func() { toks = scanTokensFragmented(c, f) })
-			}
-			c.emit("newmsg", tup(us(uint64(mid)), nlist(p), fr, us(uint64(v)), nlists(toks), acc))
-		}
+		emit := c.newMessageCase
 		// corpus: boundary lengths (F2 witness: 255), all identifiers at the boundaries
 		for _, n := range []int{0, 1, 254, 255, 256, 257, 2047, 2048} {
 			for mid := 0; mid < 256; mid += c.pick(5, 1) {
@@ -428,6 +443,13 @@ func init() {
 	props["C06"] = func(c *ctx) {
 		c06frames(c)
 		c.errorFrames()
+		// every short prefix of a constructed frame handed to the split function in a buffer that ends there
+		for _, n := range []int{0, 1, 254, 255, 256, 2048} {
+			f := []byte(xsens.NewMessage(xsens.MessageIdentifier(c.rng.Intn(256)), c.payload(n)))
+			for k := 1; k <= 9 && k <= len(f); k++ {
+				c.splitCase(f[:k], false)
+			}
+		}
 		// constructed frames handed to an emulator: its scanner must deliver them too (a mode command behind each shows it)
 		c.emuDelivers()
 		c.commandCases("client", c.pick(40, 300))
@@ -455,7 +477,7 @@ func init() {
 	}
 	defer func() {
 		inner := props["C07"]
-		props["C07"] = func(c *ctx) { inner(c); c07walk(c) }
+		props["C07"] = func(c *ctx) { inner(c); c07walk(c); c.framingBoundary(0x36) }
 	}()
 	props["C07"] = func(c *ctx) {
 		pktAt := func(m []byte, extra int, i int) {
@@ -514,6 +536,9 @@ func init() {
 					}
 					got = append(got, append([]byte(nil), p...))
 					i += len(p)
+					if len(p) == 0 || len(got) > len(m)+1 {
+						break // a packet without its header: the walk would never end (the case records where it stopped)
+					}
 				}
 			})
 			c.emit("walk", tup(nlists(pkts), nlists(got), us(uint64(i))))
